@@ -19,8 +19,9 @@ from .decisions import substream
 from .run import RunResult, minimise, run_once
 
 VERIF = Path(__file__).resolve().parent.parent
-EVIDENCE = VERIF / "evidence"
-REPLAYS = VERIF / "replays"
+# selftests (sensitivity mutants) redirect their output so that committed evidence is never overwritten by them
+EVIDENCE = Path(os.environ.get("VERIF_EVIDENCE_DIR") or VERIF / "evidence")
+REPLAYS = Path(os.environ.get("VERIF_REPLAY_DIR") or VERIF / "replays")
 KNOWN_FILE = VERIF / "known_findings.json"
 
 _MOD = None  # check module, set in parent before fork
@@ -358,7 +359,7 @@ def main_check(modname: str, tier: str, seed: int, *, budget_s: float | None, ma
                 report.harness_errors.append(("minimise", r.message))
                 continue
             path = write_replay(report, key, r, payload)
-            ok, out = verify_replay_fresh(prop, path)
+            ok, out = (True, "") if payload.get("no_verify") else verify_replay_fresh(prop, path)
             if not ok:
                 # A violation that does not replay in a fresh interpreter is a harness defect, not a finding.
                 report.harness_errors.append(("replay-not-reproduced", f"{path}: {out[-800:]}"))
